@@ -41,8 +41,16 @@ class Symbolic(SymSymbol):  # type: ignore[misc]  # pylint: disable=too-many-anc
         inner = str(expr)
         display_name = f"{cls_name}({inner})"
 
-        obj = super().__new__(cls, display_name, **assumptions)
+        # NOTE: SymPy caches symbols by name and assumptions, and different arguments can be printed
+        # alike (e.g. temperature and period are both "T"). The wrapper is therefore created
+        # uncached and is identified by its argument as well, see `_hashable_content`.
+        cls._sanitize(assumptions, cls)
+        obj = SymSymbol.__xnew__(cls, display_name, **assumptions)
+        obj.factor = expr
         return obj  # type: ignore[no-any-return]
+
+    def _hashable_content(self) -> tuple[Any, ...]:
+        return (*super()._hashable_content(), self.factor)
 
     def __init__(
         self,
